@@ -14,6 +14,7 @@ models `ExtF`/`BinF` themselves are property C20.
 -/
 import MpycV.Lemmas.SecFld
 import MpycV.Lemmas.SecFldBits
+import MpycV.Lemmas.SecFldLift
 
 namespace MpycV.C04
 open MpycV.SecFld
@@ -195,5 +196,36 @@ example : and_ (binOps 283) 83 202 [1,0,1,1,0,0,1,0] [0,0,0,0,1,1,1,1] = 83 &&& 
     (toBitsBin (binOps 283) 83 [1,0,1,1,0,0,1,0]).2 = [1,1,0,0,1,0,1,0] := by decide
 
 end char2
+
+/-! ## (5) lifting of small prime fields -/
+
+/-- ★ `lift_hom` (odd q): in the lifted field GF(q^e) = `extOps q m` (q prime, deg m ≥ 2) the constants form a
+copy of GF(q): the input conversion `liftIn` (sectypes.py:372-375) maps an int to the constant `v mod q`,
++, -, * of constants are the constants of the GF(q) results, and the output conversion `outConv`
+(sectypes.py:650-653) returns exactly that GF(q) value — and fails (AssertionError) on non-constants. -/
+theorem lift_hom {q : Nat} {m : List Nat} (hq : q.Prime) (hm : 3 ≤ m.length) {a b : Nat} (ha : a < q) (hb : b < q) :
+    (∀ v : Int, liftIn (extOps q m) q v = const (v % (q : Int)).toNat) ∧
+    (extOps q m).add (const a) (const b) = const ((a + b) % q) ∧
+    (extOps q m).sub (const a) (const b) = const ((a + q - b) % q) ∧
+    (extOps q m).mul (const a) (const b) = const ((a * b) % q) ∧
+    outConv (extOps q m) q (const a) = some a ∧
+    (∀ x : List Nat, 2 ≤ x.length → x.getLast? ≠ some 0 → outConv (extOps q m) q x = none) :=
+  ⟨ext_liftIn hq.pos hm, ext_add_const hm ha hb, ext_sub_const hm ha hb, ext_mul_const hq hm ha hb,
+   ext_outConv_const ha, fun _ h hl => ext_outConv_nonconst hq.pos h hl⟩
+
+/-- ★ `lift_hom` (q = 2): the constants 0, 1 of a binary field GF(2^e), e ≥ 2 -/
+theorem lift_hom_binary {m : Nat} (hm : 3 ≤ BinPoly.bitLen m) {a b : Nat} (ha : a < 2) (hb : b < 2) :
+    (binOps m).add a b = (a + b) % 2 ∧ (binOps m).sub a b = (a + 2 - b) % 2 ∧ (binOps m).mul a b = (a * b) % 2 ∧
+    outConv (binOps m) 2 a = some a ∧ (∀ v : Int, liftIn (binOps m) 2 v = (v % 2).toNat) :=
+  bin_lift hm ha hb
+
+/-- the lifting decision and degree of the model on the configurations of the tie -/
+example : isLifted 3 3 1 = true ∧ isLifted 3 3 0 = false ∧ isLifted 7 5 2 = false ∧ liftDeg 3 3 = 2 ∧
+    liftDeg 2 3 = 2 ∧ liftDeg 2 5 = 3 ∧ liftDeg 5 5 = 2 := by decide
+
+/-- non-vacuity: GF(3) lifted to GF(9) = GF(3)[x]/(x^2+1): 2·2 = 1, 2+2 = 1, -1 ↦ 2, x+2 is rejected -/
+example : (extOps 3 [1, 0, 1]).mul (const 2) (const 2) = const 1 ∧ (extOps 3 [1, 0, 1]).add (const 2) (const 2) = const 1 ∧
+    liftIn (extOps 3 [1, 0, 1]) 3 (-1) = const 2 ∧ outConv (extOps 3 [1, 0, 1]) 3 [2, 1] = none ∧
+    outConv (extOps 3 [1, 0, 1]) 3 (const 2) = some 2 := by decide
 
 end MpycV.C04
